@@ -28,7 +28,7 @@ ROWS = {
          "`rt_ondemand c11` on exact-size and guard-page buffers, 8 paths"),
  "C12": ("`MC_Dom` exhaustive (157k states quick): `Refines`, `MapOk`, `CapOk`, `LookupOk`, `OwnOk`; `Gen_Dom` simulation + exhaustive object/map sequences (`FNext`); `MC_Sonic`, `Gen_Sonic`",
          "`rt_dom` on pool + tracking allocator: walk, absent and present lookups through every overload, Dump after every step; parse / dump steps on a real Document"),
- "C13": ("`LedgerOk`/`SLedgerOk`; `MC_Document` (`Exact`, `NoDangling`; `NoLeak` expectedly violated = known finding; two alternative designs shown to dangle); `Trace_Ownership`",
+ "C13": ("`LedgerOk`/`SLedgerOk`; `MC_Document` (`Exact`, `NoDangling`, `NoLeak` for the code's design; three rejected designs - among them the code before db00191 - shown to leak or dangle); `Trace_Ownership`",
          "`rt_dom` + `rt_doc` with `TrackAllocator` (ledger, poison) and SimpleAllocator under ASan; snapshot independence"),
  "C14": ("`Gen_MemCmp` (`LessIsStrictOrder`)", "`rt_memcmp`: 13 x 13 page-end gaps, both overloads, map lookup, sse/dyn"),
  "C15": ("corpora of C01/C03/C05 + on-demand corpora", "digests across six binaries + partial oracle failures"),
@@ -38,7 +38,7 @@ ROWS = {
          "`rt_mt`: locked pool with hook H2 traces, TSan thread programs for the three clauses incl. the single-threaded corpora run concurrently"),
  "C18": ("`EqOk` in `MC_Dom` / `MC_Sonic` (`IEq` = `REq`, both directions, copy)",
          "`rt_dom`: ==, != vs `REq` after every step, reflexivity, cross-allocator copy, parse of Dump"),
- "C19": ("`MC_Schema` (`ModelOk`: handler I-model = `SchemaMerge` + recorded deviation; pre-repair variant violates); `Gen_Schema` pairs (78k), wide3, nest2, esckeys, layouts; `Gen_RandMerge` (simulation, update sequences); `Idempotent`",
+ "C19": ("`MC_Schema` (`ModelOk`: handler I-model = `SchemaMerge`; the handlers before the three repairs kept as parameters and shown to deviate); `Gen_Schema` pairs (78k), wide3, nest2, esckeys, layouts; `Gen_RandMerge` (simulation, update sequences); `Idempotent`",
          "`rt_merge schema`: Parse + ParseSchema once / twice / two different texts, pool + freeing allocator, ASan"),
  "C20": ("`Gen_Schema` pairs, wide3, nest2, esckeys, widearr, layouts; `Gen_RandMerge`",
          "`rt_merge lazy`: UpdateLazy on exact-size buffers, ASan"),
